@@ -30,8 +30,8 @@ pub const REC_NAMES: [&str; 7] = [
     "Accept",
     "Accept-Encoding",
 ];
-pub const CUSTOM_NAMES: [&str; 14] = [
-    "Host", "X-Custom", "x", "Content-Lengthh", "User-Agent", "a b", "Accept-Charset", "X-\u{e9}",
+pub const CUSTOM_NAMES: [&str; 15] = [
+    "Connection", "Host", "X-Custom", "x", "Content-Lengthh", "User-Agent", "a b", "Accept-Charset", "X-\u{e9}",
     // characters whose lower-case (or upper-case) form has a different UTF-8 length: any index computed on a
     // case-folded copy is off in the original
     "\u{212a}", "X-\u{212b}x", "\u{1e9e}-h", "\u{130}", "\u{23a}\u{23e}", "Accept\u{212a}",
@@ -64,7 +64,7 @@ pub const AE_VALUES: [&str; 14] = [
     "deflate, gzip;q=1.0, *;q=0.5",
     "*;q=0,xidentityx",
 ];
-pub const OTHER_VALUES: [&str; 6] = ["v", "some value", "", "a:b", "\u{e9}", "  spaced  out  "];
+pub const OTHER_VALUES: [&str; 9] = ["v", "some value", "", "a:b", "\u{e9}", "  spaced  out  ", "close", "Close", "keep-alive"];
 
 pub fn case_pattern(rng: &mut Rng, s: &str) -> String {
     match rng.below(5) {
